@@ -903,6 +903,9 @@ def main(prop, tier, seed):
     ]
     try:
         run_property(run, prop, tier, seed, max_jobs=None if tier == "thorough" else 2500)
+        if not run.machinery_errors:
+            from engines import layout_trace
+            layout_trace.validate(run, prop, tier, seed)
     except tlc.TLCError as e:
         run.machinery(str(e))
     return run.finish()
